@@ -121,14 +121,14 @@ var c16Bodies = []string{"up", "down+up", "change-query(foo)", "change-query(a)+
 	"", "bogus-action", "up+", "(((", "reload", "toggle-all\n", "\r\nup\r\n", "change-query(a\r\nb)", "up\r\n\r\ndown", strings.Repeat("up+", 30) + "up", "become(echo {})", "transform:echo up"}
 
 type c16Req struct {
-	method   string // GET, GETQ, POST, OTHER
-	line     string
-	keyMode  string // none, exact, padded, upper-name, wrong, prefix, suffix, empty, decoy
-	clMode   string // exact, absent, zero, short, long, huge, nan, negative
-	body     string
-	bareLF   bool
-	headers  []string
-	truncate int // -1 = send everything
+	method    string // GET, GETQ, POST, OTHER
+	line      string
+	keyMode   string // none, exact, padded, upper-name, wrong, prefix, suffix, empty, decoy
+	clMode    string // exact, absent, zero, short, long, huge, nan, negative
+	body      string
+	bareLF    bool
+	headers   []string
+	truncate  int // -1 = send everything
 	bodyFirst bool
 }
 
@@ -270,140 +270,144 @@ func chunkBytes(t *rapid.T, raw string) [][]byte {
 	return out
 }
 
+func propC16RequestGrammar(t *rapid.T) {
+	key := rapid.SampledFrom([]string{"", "", "secret", "s3cr3t-key-0123456789", "k"}).Draw(t, "key")
+	r := genC16Req(t)
+	if key == "" {
+		r.keyMode = "none"
+	} else if len(key) < 2 && (r.keyMode == "prefix" || r.keyMode == "suffix") {
+		r.keyMode = "wrong"
+	}
+	raw, cl, fullLen := r.renderFull(key)
+	res := c16Serve(key, chunkBytes(t, raw))
+	complete := r.truncate < 0 || r.truncate >= fullLen
+	authorized := key == "" || r.keyMode == "exact" || r.keyMode == "padded" || r.keyMode == "upper-name"
+	if !complete && !authorized {
+		// a cut can turn a longer wrong key into the exact key: judge by the bytes actually sent
+		for _, line := range strings.Split(raw, "\r\n") {
+			name, val, ok := strings.Cut(line, ":")
+			if ok && strings.EqualFold(name, "x-api-key") && strings.TrimSpace(val) == key {
+				authorized = true
+			}
+		}
+	}
+	labels := []string{"method=" + r.method, "key=" + r.keyMode, "cl=" + r.clMode, fmt.Sprintf("complete=%v", complete), fmt.Sprintf("keyConfigured=%v", key != "")}
+	nt := (key != "" && len(raw) > 20) || len(r.body) > 0
+	vstat.Case("C16/grammar", key+"|"+raw, nt, labels...)
+	if nt && vstat.WantSample("C16/grammar") {
+		vstat.Sample("C16/grammar", map[string]interface{}{"key": key, "request": raw, "response": res.response})
+	}
+	desc := fmt.Sprintf("key %q, request %q", key, raw)
+	if res.hung {
+		t.Fatalf("%s: no answer within 20 s after the client closed", desc)
+	}
+	status, body, msg := httpWellFormed(res.response)
+	if msg != "" {
+		t.Fatalf("%s: malformed answer %q: %s", desc, res.response, msg)
+	}
+	// access rule
+	if !authorized {
+		if len(res.actions) > 0 {
+			t.Fatalf("%s: action %v accepted without the exact API key", desc, res.actions[0])
+		}
+		if len(res.gets) > 0 || strings.Contains(res.response, "SECRET-STATE") {
+			t.Fatalf("%s: state revealed without the exact API key (answer %q)", desc, res.response)
+		}
+		if status/100 == 2 {
+			t.Fatalf("%s: answered %d without the exact API key", desc, status)
+		}
+	}
+	// GET never delivers an action
+	if r.method != "POST" && len(res.actions) > 0 {
+		t.Fatalf("%s: a non-POST request delivered the action list %v", desc, res.actions[0])
+	}
+	if len(res.actions) > 1 {
+		t.Fatalf("%s: %d action lists delivered for one request", desc, len(res.actions))
+	}
+	// well-formed, complete, authorized requests
+	if complete && authorized && !r.bareLF && !r.bodyFirst {
+		switch r.method {
+		case "GET", "GETQ":
+			if len(res.gets) != 1 || status != 200 || !strings.Contains(body, "SECRET-STATE") {
+				t.Fatalf("%s: a valid GET got %d %q (handler calls: %d)", desc, status, body, len(res.gets))
+			}
+		case "POST":
+			valid := (r.clMode == "exact" || r.clMode == "short") && cl > 0
+			var want []*action
+			if valid {
+				eff := r.body[:cl]
+				acts, err := parseSingleActionList(strings.Trim(eff, "\r\n"))
+				if err != nil || len(acts) == 0 {
+					valid = false
+				}
+				want = acts
+			}
+			if valid {
+				if status != 200 || len(res.actions) != 1 || !actionsEqual(res.actions[0], want) {
+					t.Fatalf("%s: a valid POST got %d, delivered %v, expected the action list of --bind %q", desc, status, res.actions, r.body[:cl])
+				}
+			} else if len(res.actions) > 0 || status/100 == 2 {
+				t.Fatalf("%s: an invalid POST (content-length mode %s, body %q) was accepted: %d, delivered %v", desc, r.clMode, r.body, status, res.actions)
+			}
+		default:
+			if status/100 == 2 || len(res.gets) > 0 {
+				t.Fatalf("%s: request line %q accepted with %d", desc, r.line, status)
+			}
+		}
+	}
+	if !complete && r.method == "POST" {
+		// an incomplete request has no side effects unless everything needed arrived
+		if len(res.actions) == 1 {
+			full, _ := c16Req{method: r.method, line: r.line, keyMode: r.keyMode, clMode: r.clMode, body: r.body, bareLF: r.bareLF, headers: r.headers, truncate: -1, bodyFirst: r.bodyFirst}.render(key)
+			headEnd := strings.Index(full, "\r\n\r\n")
+			if headEnd < 0 || cl <= 0 || r.truncate < headEnd+4+cl {
+				t.Fatalf("%s: truncated request (cut at %d of %d bytes) still delivered %v", desc, r.truncate, len(full), res.actions[0])
+			}
+		}
+	}
+}
+
 func TestVerifC16_RequestGrammar(t *testing.T) {
-	rapid.Check(t, func(t *rapid.T) {
-		key := rapid.SampledFrom([]string{"", "", "secret", "s3cr3t-key-0123456789", "k"}).Draw(t, "key")
-		r := genC16Req(t)
-		if key == "" {
-			r.keyMode = "none"
-		} else if len(key) < 2 && (r.keyMode == "prefix" || r.keyMode == "suffix") {
-			r.keyMode = "wrong"
+	rapid.Check(t, propC16RequestGrammar)
+}
+
+func propC16ArbitraryBytes(t *rapid.T) {
+	pieces := []string{"POST / HTTP/1.1\r\n", "GET / HTTP/1.1\r\n", "GET /?limit=1 HTTP", "Content-Length: ", "content-length:", "x-api-key: ", "\r\n", "\r\n\r\n", "\n", "up", "change-query(x)", "5", "2", "0", "99999999", "-1", ":", " ", "\x00", "\xff", "secret", "secre", "HTTP", "POST", "GET /"}
+	key := rapid.SampledFrom([]string{"", "secret"}).Draw(t, "key")
+	var sb strings.Builder
+	n := rapid.IntRange(0, 14).Draw(t, "n")
+	for i := 0; i < n; i++ {
+		if rapid.IntRange(0, 4).Draw(t, "rawBytes") == 0 {
+			sb.Write(rapid.SliceOfN(rapid.Byte(), 1, 6).Draw(t, "bytes"))
+		} else {
+			sb.WriteString(rapid.SampledFrom(pieces).Draw(t, "piece"))
 		}
-		raw, cl, fullLen := r.renderFull(key)
-		res := c16Serve(key, chunkBytes(t, raw))
-		complete := r.truncate < 0 || r.truncate >= fullLen
-		authorized := key == "" || r.keyMode == "exact" || r.keyMode == "padded" || r.keyMode == "upper-name"
-		if !complete && !authorized {
-			// a cut can turn a longer wrong key into the exact key: judge by the bytes actually sent
-			for _, line := range strings.Split(raw, "\r\n") {
-				name, val, ok := strings.Cut(line, ":")
-				if ok && strings.EqualFold(name, "x-api-key") && strings.TrimSpace(val) == key {
-					authorized = true
-				}
-			}
+	}
+	if rapid.IntRange(0, 30).Draw(t, "longLine") == 0 {
+		sb.WriteString(strings.Repeat("A", 70000))
+	}
+	raw := sb.String()
+	res := c16Serve(key, chunkBytes(t, raw))
+	hasKeyHeader := regexp.MustCompile(`(?i)x-api-key:[ \t]*secret[ \t]*\r\n`).MatchString(raw)
+	vstat.Case("C16/bytes", key+"|"+raw, key != "" && len(raw) > 10, fmt.Sprintf("keyConfigured=%v", key != ""))
+	if res.hung {
+		t.Fatalf("key %q bytes %q: no answer within 20 s", key, raw)
+	}
+	if _, _, msg := httpWellFormed(res.response); msg != "" {
+		t.Fatalf("key %q bytes %q: malformed answer %q: %s", key, raw, res.response, msg)
+	}
+	if key != "" && !hasKeyHeader {
+		if len(res.actions) > 0 || len(res.gets) > 0 || strings.Contains(res.response, "SECRET-STATE") {
+			t.Fatalf("key %q bytes %q: accepted without the key header (actions %v, gets %d)", key, raw, res.actions, len(res.gets))
 		}
-		labels := []string{"method=" + r.method, "key=" + r.keyMode, "cl=" + r.clMode, fmt.Sprintf("complete=%v", complete), fmt.Sprintf("keyConfigured=%v", key != "")}
-		nt := (key != "" && len(raw) > 20) || len(r.body) > 0
-		vstat.Case("C16/grammar", key+"|"+raw, nt, labels...)
-		if nt && vstat.WantSample("C16/grammar") {
-			vstat.Sample("C16/grammar", map[string]interface{}{"key": key, "request": raw, "response": res.response})
-		}
-		desc := fmt.Sprintf("key %q, request %q", key, raw)
-		if res.hung {
-			t.Fatalf("%s: no answer within 20 s after the client closed", desc)
-		}
-		status, body, msg := httpWellFormed(res.response)
-		if msg != "" {
-			t.Fatalf("%s: malformed answer %q: %s", desc, res.response, msg)
-		}
-		// access rule
-		if !authorized {
-			if len(res.actions) > 0 {
-				t.Fatalf("%s: action %v accepted without the exact API key", desc, res.actions[0])
-			}
-			if len(res.gets) > 0 || strings.Contains(res.response, "SECRET-STATE") {
-				t.Fatalf("%s: state revealed without the exact API key (answer %q)", desc, res.response)
-			}
-			if status/100 == 2 {
-				t.Fatalf("%s: answered %d without the exact API key", desc, status)
-			}
-		}
-		// GET never delivers an action
-		if r.method != "POST" && len(res.actions) > 0 {
-			t.Fatalf("%s: a non-POST request delivered the action list %v", desc, res.actions[0])
-		}
-		if len(res.actions) > 1 {
-			t.Fatalf("%s: %d action lists delivered for one request", desc, len(res.actions))
-		}
-		// well-formed, complete, authorized requests
-		if complete && authorized && !r.bareLF && !r.bodyFirst {
-			switch r.method {
-			case "GET", "GETQ":
-				if len(res.gets) != 1 || status != 200 || !strings.Contains(body, "SECRET-STATE") {
-					t.Fatalf("%s: a valid GET got %d %q (handler calls: %d)", desc, status, body, len(res.gets))
-				}
-			case "POST":
-				valid := (r.clMode == "exact" || r.clMode == "short") && cl > 0
-				var want []*action
-				if valid {
-					eff := r.body[:cl]
-					acts, err := parseSingleActionList(strings.Trim(eff, "\r\n"))
-					if err != nil || len(acts) == 0 {
-						valid = false
-					}
-					want = acts
-				}
-				if valid {
-					if status != 200 || len(res.actions) != 1 || !actionsEqual(res.actions[0], want) {
-						t.Fatalf("%s: a valid POST got %d, delivered %v, expected the action list of --bind %q", desc, status, res.actions, r.body[:cl])
-					}
-				} else if len(res.actions) > 0 || status/100 == 2 {
-					t.Fatalf("%s: an invalid POST (content-length mode %s, body %q) was accepted: %d, delivered %v", desc, r.clMode, r.body, status, res.actions)
-				}
-			default:
-				if status/100 == 2 || len(res.gets) > 0 {
-					t.Fatalf("%s: request line %q accepted with %d", desc, r.line, status)
-				}
-			}
-		}
-		if !complete && r.method == "POST" {
-			// an incomplete request has no side effects unless everything needed arrived
-			if len(res.actions) == 1 {
-				full, _ := c16Req{method: r.method, line: r.line, keyMode: r.keyMode, clMode: r.clMode, body: r.body, bareLF: r.bareLF, headers: r.headers, truncate: -1, bodyFirst: r.bodyFirst}.render(key)
-				headEnd := strings.Index(full, "\r\n\r\n")
-				if headEnd < 0 || cl <= 0 || r.truncate < headEnd+4+cl {
-					t.Fatalf("%s: truncated request (cut at %d of %d bytes) still delivered %v", desc, r.truncate, len(full), res.actions[0])
-				}
-			}
-		}
-	})
+	}
+	if !strings.HasPrefix(raw, "POST / HTTP") && len(res.actions) > 0 {
+		t.Fatalf("bytes %q: action delivered for something that is not a POST request", raw)
+	}
 }
 
 func TestVerifC16_ArbitraryBytes(t *testing.T) {
-	pieces := []string{"POST / HTTP/1.1\r\n", "GET / HTTP/1.1\r\n", "GET /?limit=1 HTTP", "Content-Length: ", "content-length:", "x-api-key: ", "\r\n", "\r\n\r\n", "\n", "up", "change-query(x)", "5", "2", "0", "99999999", "-1", ":", " ", "\x00", "\xff", "secret", "secre", "HTTP", "POST", "GET /"}
-	rapid.Check(t, func(t *rapid.T) {
-		key := rapid.SampledFrom([]string{"", "secret"}).Draw(t, "key")
-		var sb strings.Builder
-		n := rapid.IntRange(0, 14).Draw(t, "n")
-		for i := 0; i < n; i++ {
-			if rapid.IntRange(0, 4).Draw(t, "rawBytes") == 0 {
-				sb.Write(rapid.SliceOfN(rapid.Byte(), 1, 6).Draw(t, "bytes"))
-			} else {
-				sb.WriteString(rapid.SampledFrom(pieces).Draw(t, "piece"))
-			}
-		}
-		if rapid.IntRange(0, 30).Draw(t, "longLine") == 0 {
-			sb.WriteString(strings.Repeat("A", 70000))
-		}
-		raw := sb.String()
-		res := c16Serve(key, chunkBytes(t, raw))
-		hasKeyHeader := regexp.MustCompile(`(?i)x-api-key:[ \t]*secret[ \t]*\r\n`).MatchString(raw)
-		vstat.Case("C16/bytes", key+"|"+raw, key != "" && len(raw) > 10, fmt.Sprintf("keyConfigured=%v", key != ""))
-		if res.hung {
-			t.Fatalf("key %q bytes %q: no answer within 20 s", key, raw)
-		}
-		if _, _, msg := httpWellFormed(res.response); msg != "" {
-			t.Fatalf("key %q bytes %q: malformed answer %q: %s", key, raw, res.response, msg)
-		}
-		if key != "" && !hasKeyHeader {
-			if len(res.actions) > 0 || len(res.gets) > 0 || strings.Contains(res.response, "SECRET-STATE") {
-				t.Fatalf("key %q bytes %q: accepted without the key header (actions %v, gets %d)", key, raw, res.actions, len(res.gets))
-			}
-		}
-		if !strings.HasPrefix(raw, "POST / HTTP") && len(res.actions) > 0 {
-			t.Fatalf("bytes %q: action delivered for something that is not a POST request", raw)
-		}
-	})
+	rapid.Check(t, propC16ArbitraryBytes)
 }
 
 func TestVerifC16_Regress(t *testing.T) {
